@@ -60,7 +60,9 @@ static void mon_stop_effects(int s) {
 }
 
 static int owed_excused(int s, int k);
+static long cb_total;                          /* callbacks entered so far in this execution (a dispatch that ran one has processed a batch) */
 static void cb_enter(int s, int kind) {
+    cb_total++;
     mon_flush();
     mod_t *m = &MD[s];
     m->ncb[kind]++; obs(1000 + s * 10 + kind);
@@ -278,7 +280,8 @@ static void handle_events(int s, const m_queue_t *evts, int handler_id) {
                 if (si < 0) vfail("EV.owner", "EV.owner|tmr", "%s received a timer event whose user pointer matches none of its timer sources (internal timer leaked to the user?)", m->name);
                 if (e->tmr_evt->ns != TPER[m->src[si].key]) vfail("EV.owner", "EV.owner|tmr-value", "%s: timer event reports %lu ns, registered %lu", m->name, (unsigned long)e->tmr_evt->ns, (unsigned long)TPER[m->src[si].key]);
                 if (!m->src[si].fired) vfail("EV.ghost", "EV.ghost|tmr", "%s received a timer event although the timer did not expire", m->name);
-                m->src[si].fired = 0; trig = (size_t)(i + 1) >= eff_batch(s); cur_evrec[i] = new_evrec(e, 2, -1, m->src[si].key); obs(7000 + si);
+                if (m->ever_batched && m->src[si].fired > 1) m->src[si].fired--; else m->src[si].fired = 0;
+                trig = (size_t)(i + 1) >= eff_batch(s); cur_evrec[i] = new_evrec(e, 2, -1, m->src[si].key); obs(7000 + si);
                 if (m->src[si].flags & 2) m->src[si].present = 0;
                 break; }
             case M_SRC_TYPE_SGN: case M_SRC_TYPE_PATH: case M_SRC_TYPE_PID: {
